@@ -86,7 +86,7 @@ pub static MAP_OPS: &[OpSpec] = &[
     OpSpec { code: map::RAW_ENTRY_RO, name: "raw_entry", args: &[Key, Choice(3)] },
     OpSpec { code: map::REHASH_SETUP, name: "rehash_setup", args: &[Small(6)] },
     OpSpec { code: map::MIRROR_TO_OTHER, name: "mirror_to_other", args: &[Choice(3)] },
-    OpSpec { code: map::CAPPED_CHURN, name: "capped_churn", args: &[Small(64), Choice(5), Any, Bool] },
+    OpSpec { code: map::CAPPED_CHURN, name: "capped_churn", args: &[Small(64), Choice(6), Any, Bool] },
 ];
 
 pub mod table {
